@@ -2136,8 +2136,11 @@ class SquareLowRankUpdateMatrix(InvertibleMatrix, ImplicitArrayMatrix):
         if self._capacitance_matrix is None:
             self._capacitance_matrix = DenseSquareMatrix(
                 self.inner_square_matrix.inv.array
-                + self.right_factor_matrix
-                @ (self.square_matrix.inv @ self.left_factor_matrix.array),
+                + self._sign
+                * (
+                    self.right_factor_matrix
+                    @ (self.square_matrix.inv @ self.left_factor_matrix.array)
+                ),
             )
         return self._capacitance_matrix
 
@@ -2298,8 +2301,11 @@ class SymmetricLowRankUpdateMatrix(
         if self._capacitance_matrix is None:
             self._capacitance_matrix = DenseSymmetricMatrix(
                 self.inner_symmetric_matrix.inv.array
-                + self.factor_matrix.T
-                @ (self.symmetric_matrix.inv @ self.factor_matrix.array),
+                + self._sign
+                * (
+                    self.factor_matrix.T
+                    @ (self.symmetric_matrix.inv @ self.factor_matrix.array)
+                ),
             )
         return self._capacitance_matrix
 
@@ -2430,8 +2436,11 @@ class PositiveDefiniteLowRankUpdateMatrix(
         if self._capacitance_matrix is None:
             self._capacitance_matrix = DensePositiveDefiniteMatrix(
                 self.inner_pos_def_matrix.inv.array
-                + self.factor_matrix.T
-                @ (self.pos_def_matrix.inv @ self.factor_matrix.array),
+                + self._sign
+                * (
+                    self.factor_matrix.T
+                    @ (self.pos_def_matrix.inv @ self.factor_matrix.array)
+                ),
             )
         return self._capacitance_matrix
 
@@ -2455,7 +2464,9 @@ class PositiveDefiniteLowRankUpdateMatrix(
                 u_matrix.shape[1],
             ),
         )
-        m_matrix = sla.sqrtm(i_inner + l_matrix.T @ (k_matrix @ l_matrix.array))
+        m_matrix = sla.sqrtm(
+            i_inner + self._sign * (l_matrix.T @ (k_matrix @ l_matrix.array)),
+        )
         x_matrix = DenseSymmetricMatrix(
             l_matrix.inv.T @ ((m_matrix - i_inner) @ l_matrix.inv),
         )
